@@ -90,6 +90,14 @@ type SimCfg struct {
 	StarveID   int // task id not scheduled during [StarveFrom, StarveFrom+StarveLen) decisions unless alone; -1: none
 	StarveFrom int
 	StarveLen  int
+	// Siege: task SiegeVictim is preempted every time it reaches the point SiegePoint (the window between
+	// reading an atom and installing the result) and task SiegeAdversary then runs exactly one of its
+	// operations (up to its next "siege.op-done" point) before the victim continues: the victim loses as
+	// many rounds in a row as the adversary has operations. Nothing else is preempted (use Q=1, WindowBias=0).
+	Siege          bool
+	SiegeVictim    int
+	SiegeAdversary int
+	SiegePoint     string
 	FullLog    bool
 }
 
@@ -138,6 +146,9 @@ type Sim struct {
 	mu   sync.Mutex
 	tape *Tape
 	cfg  SimCfg
+
+	siegeWant   int
+	SiegeRounds int64
 
 	tasks   []*Task
 	cur     *Task
@@ -240,6 +251,7 @@ func NewSim(tape *Tape, cfg SimCfg) *Sim {
 		start:     time.Now(),
 		evHash:    1469598103934665603,
 		ilHash:    1469598103934665603,
+		siegeWant: -1,
 	}
 }
 
@@ -406,6 +418,33 @@ func (s *Sim) RequestAbort(reason string) {
 }
 
 //go:norace
+func (s *Sim) siegeAdversaryAlive() bool {
+	for _, t := range s.tasks {
+		if t.ID == s.cfg.SiegeAdversary {
+			return t.state != tsDone
+		}
+	}
+	return false
+}
+
+// SetSiege turns the siege policy on (before Run).
+func (s *Sim) SetSiege(victim, adversary *Task, point string) {
+	s.cfg.Siege = true
+	s.cfg.SiegeVictim = victim.ID
+	s.cfg.SiegeAdversary = adversary.ID
+	s.cfg.SiegePoint = point
+}
+
+// SiegeOpDone is called by the adversary's driver after each of its operations.
+//
+//go:norace
+func (s *Sim) SiegeOpDone(t *Task) {
+	if s.cfg.Siege {
+		s.hookPointL(t, "siege.op-done", false, false)
+	}
+}
+
+//go:norace
 func (s *Sim) preempt(t *Task, point string) {
 	s.Preempted.Add(point, 1)
 	t.state = tsRunnable
@@ -428,6 +467,19 @@ func (s *Sim) hookPoint(t *Task, point string, window bool) bool {
 func (s *Sim) hookPointL(t *Task, point string, window, atLock bool) bool {
 	s.Points.Add(point, 1)
 	held := t.lockDepth > 0 && !atLock
+	if s.cfg.Siege && !held {
+		if t.ID == s.cfg.SiegeVictim && point == s.cfg.SiegePoint && s.siegeAdversaryAlive() {
+			s.siegeWant = s.cfg.SiegeAdversary
+			s.SiegeRounds++
+			s.preempt(t, point)
+			return true
+		}
+		if t.ID == s.cfg.SiegeAdversary && point == "siege.op-done" {
+			s.siegeWant = s.cfg.SiegeVictim
+			s.preempt(t, point)
+			return true
+		}
+	}
 	if s.cfg.PCTDepth > 0 {
 		s.hookCount++
 		for _, cp := range s.pctPoints {
@@ -948,7 +1000,18 @@ func (s *Sim) Run() {
 			}
 		}
 		var t *Task
-		if s.contender != nil {
+		if s.cfg.Siege && s.siegeWant >= 0 {
+			for _, c := range enabled {
+				if c.ID == s.siegeWant {
+					t = c
+					t.quantum = 0
+				}
+			}
+			s.siegeWant = -1
+		}
+		if t != nil {
+			// the siege decides
+		} else if s.contender != nil {
 			// contention mode (see "auto.trylock")
 			if s.contendGo {
 				for _, c := range enabled {
